@@ -170,7 +170,20 @@ func Unroll(p *Prog) (*Prog, UnrollStats, error) {
 					st.MaxDepth = depth + 1
 				}
 				st.Expansions++
-				env := Env{EQU: equ}
+				env := Env{EQU: equ, Atom: func(name string) (*big.Int, bool) {
+					// a FOR count sees the predefined constants like any other expression
+					switch name {
+					case "CORESIZE":
+						return big.NewInt(int64(p.Cfg.CoreSize)), true
+					case "MAXLENGTH":
+						return big.NewInt(int64(p.Cfg.Length)), true
+					case "MAXPROCESSES":
+						return big.NewInt(int64(p.Cfg.Processes)), true
+					case "MINDISTANCE":
+						return big.NewInt(int64(p.Cfg.Distance)), true
+					}
+					return nil, false
+				}}
 				v, err := env.Eval(Tokens(x.Count))
 				if err != nil {
 					return nil, fmt.Errorf("FOR count: %w", err)
